@@ -95,6 +95,8 @@ enum End {
     Val(u64),
     Panic,
     Never,
+    /// yields for ever, never parks (until the harness' stop flag)
+    Spin,
     Bomb,
 }
 
@@ -109,6 +111,7 @@ fn parse_end(s: &str) -> Option<End> {
     match s {
         "p" => Some(End::Panic),
         "n" => Some(End::Never),
+        "z" => Some(End::Spin),
         "b" => Some(End::Bomb),
         _ => s.strip_prefix('v').and_then(|v| v.parse().ok()).map(End::Val),
     }
@@ -119,6 +122,7 @@ fn show_end(e: End) -> String {
         End::Val(v) => format!("v{v}"),
         End::Panic => "p".into(),
         End::Never => "n".into(),
+        End::Spin => "z".into(),
         End::Bomb => "b".into(),
     }
 }
@@ -146,6 +150,8 @@ struct Ctx {
     worker_tids: Mutex<Vec<u64>>,
     /// gated blocking closures (`g` lines) keep their pool thread busy until this is set
     gate: std::sync::atomic::AtomicBool,
+    /// ends the bodies that yield for ever (`z`)
+    stop: std::sync::atomic::AtomicBool,
 }
 
 impl Ctx {
@@ -162,6 +168,7 @@ impl Ctx {
             died: Mutex::new(vec![]),
             worker_tids: Mutex::new(vec![]),
             gate: std::sync::atomic::AtomicBool::new(false),
+            stop: std::sync::atomic::AtomicBool::new(false),
         })
     }
 
@@ -224,13 +231,15 @@ struct RemoteWoken {
     ctx: Arc<Ctx>,
     t: usize,
     polls: u8,
+    /// back-to-back `wake()` calls per wake-up (`r`: 1, `R`: 2 -- the second one finds the task already scheduled)
+    burst: usize,
     to_helper: Option<std::sync::mpsc::Sender<Waker>>,
     woken: Option<std::sync::mpsc::Receiver<()>>,
 }
 
 impl RemoteWoken {
-    fn new(ctx: Arc<Ctx>, t: usize) -> Self {
-        RemoteWoken { ctx, t, polls: 0, to_helper: None, woken: None }
+    fn new(ctx: Arc<Ctx>, t: usize, burst: usize) -> Self {
+        RemoteWoken { ctx, t, polls: 0, burst, to_helper: None, woken: None }
     }
 }
 
@@ -245,15 +254,22 @@ impl Future for RemoteWoken {
                 let (woken_tx, woken_rx) = std::sync::mpsc::channel::<()>();
                 let ctx = self.ctx.clone();
                 let t = self.t;
+                let burst = self.burst;
                 thread::spawn(move || {
                     let Ok(waker) = from_task.recv_timeout(Duration::from_secs(10)) else { return };
                     // let the task return `Pending` and its worker go to sleep
                     thread::sleep(Duration::from_micros(300));
-                    ctx.push(format!("k.{t}"));
-                    waker.wake();
+                    for _ in 0..burst {
+                        ctx.push(format!("k.{t}"));
+                        waker.wake_by_ref();
+                    }
+                    drop(waker);
                     let Ok(waker) = from_task.recv_timeout(Duration::from_secs(10)) else { return };
-                    ctx.push(format!("k.{t}"));
-                    waker.wake();
+                    for _ in 0..burst {
+                        ctx.push(format!("k.{t}"));
+                        waker.wake_by_ref();
+                    }
+                    drop(waker);
                     woken_tx.send(()).ok();
                 });
                 to_helper.send(cx.waker().clone()).ok();
@@ -339,13 +355,23 @@ async fn body(ctx: Arc<Ctx>, spec: Spec) -> u64 {
             's' => compio_runtime::time::sleep(Duration::from_millis(1)).await,
             't' => compio_runtime::time::sleep(Duration::from_millis(2)).await,
             'i' => pipe_io(t).await,
-            'r' => RemoteWoken::new(ctx.clone(), t).await,
+            'r' => RemoteWoken::new(ctx.clone(), t, 1).await,
+            'R' => RemoteWoken::new(ctx.clone(), t, 2).await,
             _ => {}
         }
     }
     match spec.end {
         End::Never => {
             compio_runtime::time::sleep(NEVER).await;
+            0
+        }
+        End::Spin => {
+            // always runnable: every poll wakes itself. Ends only when the harness says so (cleanup, or after
+            // a join that did not come back), bounded by the clock as well.
+            let t0 = Instant::now();
+            while !ctx.stop.load(Ordering::SeqCst) && t0.elapsed() < NEVER {
+                YieldNow(false).await;
+            }
             0
         }
         End::Bomb => {
@@ -631,6 +657,8 @@ impl Det {
         let (end, _) = self.specs[&t];
         match (seen, end) {
             (Seen::Val(v), End::Val(x)) if v == x => {}
+            // a yielding body that was told to stop (after a join that did not come back) returns 0
+            (Seen::Val(0), End::Spin) if self.ctx.stop.load(Ordering::SeqCst) => {}
             (Seen::Val(v), _) => ex.fail("C18:wrong-result", format!("receiver of task {t} ({end:?}) got {v}")),
             (Seen::Cancelled, End::Val(_)) if self.joined.is_none() && !self.any_bomb() => {
                 ex.fail("C18:spurious-cancel", format!("receiver of task {t} cancelled before join, no panic involved"))
@@ -665,6 +693,7 @@ impl Det {
         let out = match res {
             Err(_) => {
                 HANGS.fetch_add(1, Ordering::Relaxed);
+                self.ctx.stop.store(true, Ordering::SeqCst);
                 ex.fail("C18:join-hang", format!("join did not return within {jw:?}"));
                 "hang".to_string()
             }
@@ -771,6 +800,13 @@ impl Det {
 
 fn exec_det(rt: &Runtime, case: &Case) -> Exec {
     let mut ex = Exec::new();
+    if HANGS.load(Ordering::Relaxed) >= 8 && !REPLAY.load(Ordering::Relaxed) {
+        // eight watchdogs have expired: the run has failed; hung worker threads may still be spinning. The
+        // remaining cases are not executed (their lines read `skipped`, which no model output equals).
+        ex.out = case.lines.iter().map(|_| "skipped".to_string()).collect();
+        ex.tag("skipped-after-hangs");
+        return ex;
+    }
     let mut d = Det {
         ctx: Ctx::new(false, false),
         cfg: None,
@@ -809,7 +845,7 @@ fn exec_det(rt: &Runtime, case: &Case) -> Exec {
                     (Ok(t), Some(end)) if t < MAX_TASKS && !d.specs.contains_key(&t) => {
                         ex.tag(format!("body:{}", show_end(end).chars().next().unwrap()));
                         let susp = if *susp == "-" { String::new() } else { susp.to_string() };
-                        if susp.contains('r') {
+                        if susp.contains('r') || susp.contains('R') {
                             ex.tag("susp:remote-wake");
                         }
                         d.dispatch(Spec { t, susp, end })
@@ -878,6 +914,10 @@ fn exec_det(rt: &Runtime, case: &Case) -> Exec {
         }
         // never leave worker or pool threads behind
         d.ctx.gate.store(true, Ordering::SeqCst);
+        if d.disp.is_some() && d.ctx.sequential {
+            // (a sequential worker would await a yielding body for ever)
+            d.ctx.stop.store(true, Ordering::SeqCst);
+        }
         if d.disp.is_some() {
             let mut scratch = Exec::new();
             let _ = d.join(&mut scratch).await;
@@ -998,7 +1038,9 @@ fn judge_hist(ws: &[&str], ex: &mut Exec) -> String {
             "g" => {
                 let (t, v) = (num(1).unwrap_or(0), num(2).unwrap_or(0) as u64);
                 resolved.insert(t);
-                if ends.get(&t) != Some(&End::Val(v)) || !finished.contains(&t) {
+                if ends.get(&t) == Some(&End::Spin) && v == 0 {
+                    // told to stop after a join that did not come back (reported as join-hang)
+                } else if ends.get(&t) != Some(&End::Val(v)) || !finished.contains(&t) {
                     bad(ex, "C18:wrong-result", format!("receiver of task {t} ({:?}) got {v}", ends.get(&t)));
                 }
             }
@@ -1265,6 +1307,7 @@ fn run_conc(rt: &Runtime, cfg: &Cfg, plan: Vec<Vec<PlanTask>>, join_at: JoinAt) 
         match res {
             Err(_) => {
                 HANGS.fetch_add(1, Ordering::Relaxed);
+                ctx.stop.store(true, Ordering::SeqCst);
                 ctx.push("Rhang".into())
             }
             Ok(Ok(Ok(()))) => ctx.push("R.ok".into()),
@@ -1333,8 +1376,8 @@ fn gen_cfg(rng: &mut Rng) -> (usize, bool, String) {
 
 fn gen_susp(rng: &mut Rng) -> String {
     match rng.below(14) {
-        12 => "r".into(),
-        13 => (*rng.pick(&["ry", "sr", "rr", "yr"])).into(),
+        12 => (*rng.pick(&["r", "R"])).into(),
+        13 => (*rng.pick(&["ry", "sr", "rr", "yr", "Ry", "sR", "RR"])).into(),
         0..=3 => "-".into(),
         4 => "y".into(),
         5 => "s".into(),
@@ -1397,7 +1440,8 @@ fn gen_det(rng: &mut Rng) -> Vec<String> {
                 let bomb_ok = w == 1 || bombs == 0;
                 let end = match rng.below(20) {
                     0..=1 => End::Panic,
-                    2..=3 if conc => End::Never,
+                    2 if conc => End::Never,
+                    3 if conc => End::Spin,
                     4..=5 if bomb_ok => End::Bomb,
                     _ => End::Val(rng.below(1000)),
                 };
@@ -1573,7 +1617,8 @@ fn gen_saturated(rng: &mut Rng) -> Vec<String> {
         let susp = gen_susp_no_io(rng);
         let end = match rng.below(16) {
             0 => End::Panic,
-            1..=2 if conc => End::Never,
+            1 if conc => End::Never,
+            2 if conc => End::Spin,
             3 if !bombed && w >= 2 => End::Bomb,
             _ => End::Val(rng.below(1000)),
         };
@@ -1599,7 +1644,7 @@ fn gen_saturated(rng: &mut Rng) -> Vec<String> {
                 }
                 tasks.push((t, true, waited));
             }
-            End::Never => tasks.push((t, true, true)),
+            End::Never | End::Spin => tasks.push((t, true, true)),
             _ => tasks.push((t, false, false)),
         }
     }
@@ -1636,20 +1681,35 @@ fn gen_remote(rng: &mut Rng) -> Vec<String> {
     let conc = rng.chance(1, 2);
     let mut l = vec![format!("cfg {w} {} cap={}", if conc { "c" } else { "s" }, rng.pick(&[16u32, 64]))];
     let n = rng.range(1, 5) as usize;
-    let mut waited = vec![];
     for t in 1..=n {
-        let susp = *rng.pick(&["r", "r", "ry", "yr", "rs", "rr", "-", "y"]);
+        let susp = *rng.pick(&["r", "R", "ry", "yr", "Rs", "rr", "RR", "-", "y"]);
         l.push(format!("d {t} {susp} v{}", rng.below(1000)));
-        if !conc && rng.chance(1, 2) {
-            // sequential mode finishes everything before join returns
-            waited.push(false);
-        } else {
+        if !(!conc && rng.chance(1, 2)) {
+            // (sequential mode finishes everything before join returns anyway)
             l.push(format!("wait {t}"));
-            waited.push(true);
         }
+    }
+    // concurrent mode: closures still in flight when join is called -- parked after (repeated) remote wakes,
+    // parked on a long timer, and yielding for ever -- several per worker; a last short task gives the helper
+    // threads time to deliver their wakes first
+    let mut pending = vec![];
+    if conc {
+        for _ in 0..rng.range(1, 4) {
+            let t = n + 1 + pending.len();
+            let (susp, end) = *rng.pick(&[("R", "n"), ("R", "n"), ("r", "n"), ("RR", "z"), ("-", "z"), ("y", "z"), ("R", "z"), ("-", "n")]);
+            l.push(format!("d {t} {susp} {end}"));
+            pending.push(t);
+        }
+        let t = n + 1 + pending.len();
+        l.push(format!("d {t} {} v7", rng.pick(&["t", "tt", "s"])));
+        l.push(format!("wait {t}"));
     }
     l.push("join".into());
     for t in 1..=n {
+        l.push(format!("rx {t}"));
+        l.push(format!("stat {t}"));
+    }
+    for t in &pending {
         l.push(format!("rx {t}"));
         l.push(format!("stat {t}"));
     }
@@ -1725,7 +1785,8 @@ fn plan_conc(rng: &mut Rng, big: bool) -> (Cfg, Vec<Vec<PlanTask>>, JoinAt) {
                     0..=1 => End::Panic,
                     // a task that never ends: concurrent mode only (sequential `join` would wait for it);
                     // nobody may wait for it before join
-                    2..=3 if conc && join_at != JoinAt::AfterResults => End::Never,
+                    2 if conc && join_at != JoinAt::AfterResults => End::Never,
+                    3 if conc && join_at != JoinAt::AfterResults => End::Spin,
                     4 if with_bombs && bombs < w => {
                         bombs += 1;
                         End::Bomb
